@@ -44,6 +44,11 @@ def case_st(draw, shapes, strand=False):
     sc = draw(scen.scenario_st(shapes, measure="maybe", max_n=20, numeric="some",
                                stats=["mean", "sum", "stddev"]))
     sv, q = sc["survey"], sc["query"]
+    # derived (zz9-computed) MR items: placed at their anchors, reported by derived_*_idxs
+    from props.c07 import _add_derived
+    for var in sv["vars"].values():
+        if var["type"] == "mr" and draw(st.integers(0, 2)) == 0:
+            _add_derived(draw, var)
     is_na = bool(q.get("measure")) and sv["vars"][q["measure"]["var"]]["type"] == "numarr"
     if strand:
         dims = [None] if is_na else q["dims"][-1:]
@@ -216,6 +221,12 @@ def compare_partition(pB, pT, rec, is_slice, rows_array, cols_array, has_alt):
         rec.compared()
         sig = _signature(name, rows_array, cols_array)
         if isinstance(vB, Raised):
+            if kind in ("RI", "CI") or name in STRUCTURAL:
+                # defined for every partition (positions, labels, codes): a read that fails
+                # has no extent at all, let alone one matching the reported shape
+                rec.violation("%s cannot be read: %r (row order %r, column order %r)" % (
+                    name, vB, rB, cB), "unreadable-" + name)
+                continue
             # unavailable without any display transform: nothing to align against
             rec.event("unavailable in untransformed run")
             continue
@@ -255,6 +266,11 @@ def compare_partition(pB, pT, rec, is_slice, rows_array, cols_array, has_alt):
                     rec.violation("%s(%d) is not the re-indexed untransformed output" % (
                         fname, q), "misaligned-" + fname)
     return True
+
+
+STRUCTURAL = {"row_labels", "column_labels", "row_codes", "column_codes", "row_aliases",
+              "column_aliases", "rows_dimension_fills", "columns_dimension_fills", "shape",
+              "counts", "unweighted_counts"}
 
 
 def _signature(name, rows_array, cols_array):
